@@ -1,4 +1,6 @@
-//! Write-ahead-log damage: `LogIterator` drain + `log_to_setsum` on the damaged file.
+//! Write-ahead-log damage: `LogIterator` drain + `log_to_setsum` + `log_to_builder` (into a
+//! collecting builder and into a real `SstBuilder`, the `KeyValueStore::open` replay path) +
+//! `truncate_final_partial_frame` on the damaged file.
 
 use std::path::{Path, PathBuf};
 
@@ -60,6 +62,49 @@ pub struct LogObs {
     pub got: Vec<Entry>,
     pub err: Option<String>,
     pub setsum: Option<Result<[u8; 32], String>>,
+    /// `log_to_builder` into a builder that records the calls it receives, in order
+    pub collected: Option<Result<Option<Vec<Entry>>, String>>,
+    /// `log_to_builder` into an `SstBuilder`; the entries are the forward walk of the sealed table
+    pub table: Option<Result<Option<Vec<Entry>>, String>>,
+    /// the sealed table could not be walked (a failure of its own)
+    pub table_walk_err: Option<String>,
+    pub tfpf: Option<Result<Option<u64>, String>>,
+}
+
+/// A `Builder` that records what it is fed.
+#[derive(Default)]
+pub struct Collect(pub Vec<Entry>);
+
+impl Builder for Collect {
+    type Sealed = Vec<Entry>;
+    fn approximate_size(&self) -> usize {
+        0
+    }
+    fn put(&mut self, key: &[u8], timestamp: u64, value: &[u8]) -> Result<(), handled::SError> {
+        self.0.push((key.to_vec(), timestamp, Some(value.to_vec())));
+        Ok(())
+    }
+    fn del(&mut self, key: &[u8], timestamp: u64) -> Result<(), handled::SError> {
+        self.0.push((key.to_vec(), timestamp, None));
+        Ok(())
+    }
+    fn seal(self) -> Result<Vec<Entry>, handled::SError> {
+        Ok(self.0)
+    }
+}
+
+/// `SstBuilder` accepts strictly increasing (key ascending, timestamp descending) input after its
+/// initial "last key" (empty key, u64::MAX): a sorted log holding the same (key, timestamp) twice,
+/// or starting with that initial key, is refused by the builder, not by the log reader.
+pub fn sst_builder_refuses(sorted: &[Entry]) -> bool {
+    sorted.first().map(|e| e.0.is_empty() && e.1 == u64::MAX).unwrap_or(false) || sorted.windows(2).any(|w| w[0].0 == w[1].0 && w[0].1 == w[1].1)
+}
+
+pub fn sorted(entries: &[Entry]) -> Vec<Entry> {
+    let mut v = entries.to_vec();
+    // stable, like the sort inside log_to_builder
+    vcore::refcursor::sort_entries(&mut v);
+    v
 }
 
 fn short(e: &handled::SError) -> String {
@@ -97,6 +142,26 @@ pub fn observe(bytes: &[u8], path: Option<&Path>, cap: usize) -> LogObs {
             Ok(s) => Ok(s.digest()),
             Err(e) => Err(short(&e)),
         });
+        o.collected = Some(match sst::log::log_to_builder(sst::LogOptions::default(), path, Collect::default()) {
+            Ok(v) => Ok(v),
+            Err(e) => Err(short(&e)),
+        });
+        let out = path.with_extension("replayed.sst");
+        let _ = std::fs::remove_file(&out);
+        o.table = Some(match sst::SstBuilder::new(sst::SstOptions::default(), &out) {
+            Ok(b) => match sst::log::log_to_builder(sst::LogOptions::default(), path, b) {
+                Ok(None) => Ok(None),
+                Ok(Some(table)) => {
+                    let w = crate::sstpart::walk(&mut table.cursor(), true, cap);
+                    o.table_walk_err = w.err;
+                    Ok(Some(w.got))
+                }
+                Err(e) => Err(short(&e)),
+            },
+            Err(e) => Err(format!("SstBuilder::new: {}", short(&e))),
+        });
+        let _ = std::fs::remove_file(&out);
+        o.tfpf = Some(sst::log::truncate_final_partial_frame(sst::LogOptions::default(), path).map_err(|e| short(&e)));
     }
     o
 }
@@ -126,6 +191,24 @@ fn is_replay_of_whole_batches(x: &[Entry], batches: &[Vec<Entry>]) -> bool {
         }
     }
     false
+}
+
+/// `x` is a concatenation of whole pristine batches in any order (a copied run can replace one
+/// whole small frame by another).
+fn is_concat_of_whole_batches(x: &[Entry], batches: &[Vec<Entry>]) -> bool {
+    let mut reach = vec![false; x.len() + 1];
+    reach[0] = true;
+    for at in 0..x.len() {
+        if !reach[at] {
+            continue;
+        }
+        for b in batches {
+            if !b.is_empty() && x[at..].starts_with(b) {
+                reach[at + b.len()] = true;
+            }
+        }
+    }
+    !x.is_empty() && reach[x.len()]
 }
 
 pub struct LogPristine {
@@ -186,6 +269,21 @@ impl Target for LogDamage {
         if obs.open_err.is_some() || obs.err.is_some() || obs.got != entries || obs.setsum != Some(Ok(setsum)) {
             panic!("pristine log does not read back as generated: open={:?} err={:?} got {} of {} entries, setsum {:?}", obs.open_err, obs.err, obs.got.len(), entries.len(), obs.setsum.map(|r| r.is_ok()));
         }
+        // the replay path and the torn-tail probe on the PRISTINE file (C12's business; everything
+        // below compares against it)
+        let want = sorted(&entries);
+        if obs.collected != Some(Ok(Some(want.clone()))) {
+            panic!("log_to_builder on the pristine log does not feed the builder the sorted entries of the log: {:?}", obs.collected.as_ref().map(|r| r.as_ref().map(|t| t.as_ref().map(|t| t.len()))));
+        }
+        let refused = sst_builder_refuses(&want);
+        match &obs.table {
+            Some(Ok(Some(t))) if !refused && *t == want && obs.table_walk_err.is_none() => {}
+            Some(Err(_)) if refused => {}
+            other => panic!("log_to_builder(SstBuilder) on the pristine log: expected {}, got {:?} (walk error {:?})", if refused { "a refusal by the builder" } else { "the sorted entries" }, other.map(|r| r.as_ref().map(|t| t.as_ref().map(|t| t.len()))), obs.table_walk_err),
+        }
+        if obs.tfpf != Some(Ok(None)) {
+            panic!("truncate_final_partial_frame on the pristine log says {:?}", obs.tfpf);
+        }
         if layout.batch_ends.len() != batches.len() {
             panic!("independent log walker found {} batches, {} were written", layout.batch_ends.len(), batches.len());
         }
@@ -225,7 +323,10 @@ impl Target for LogDamage {
         let got = observe(&damaged, Some(&path), 4 * p.entries.len() + 8);
         let peak = alloc::disarm();
         let _ = std::fs::remove_file(&path);
-        let v = judge(p, &got, &applied.iter().filter(|a| a.effective).map(|a| a.kind).collect::<Vec<_>>(), &what);
+        if sst_builder_refuses(&sorted(&p.entries)) {
+            o.label("file:repeats-a-key@timestamp(SstBuilder-refuses-the-pristine-replay)");
+        }
+        let v = judge(p, &got, &damaged, &applied.iter().filter(|a| a.effective).map(|a| a.kind).collect::<Vec<_>>(), &what);
         for l in v.0 {
             o.label(l);
         }
@@ -245,7 +346,7 @@ impl Target for LogDamage {
     }
 }
 
-pub fn judge(p: &LogPristine, got: &LogObs, kinds: &[&str], what: &str) -> (Vec<String>, Option<Failure>) {
+pub fn judge(p: &LogPristine, got: &LogObs, damaged: &[u8], kinds: &[&str], what: &str) -> (Vec<String>, Option<Failure>) {
     let mut labels = vec![];
     let mut failure: Option<Failure> = None;
     let mut fail = |sig: &str, msg: String| {
@@ -257,13 +358,20 @@ pub fn judge(p: &LogPristine, got: &LogObs, kinds: &[&str], what: &str) -> (Vec<
         labels.push("outcome:detected-at-open".into());
         return (labels, failure);
     }
+    judge_tfpf(p, got, damaged, &mut labels, &mut fail);
     let common = p.entries.iter().zip(got.got.iter()).take_while(|(a, b)| a == b).count();
     let extra = &got.got[common..];
     let truncated = kinds.contains(&"truncate");
     let mut replay = false;
+    let mut copied = false;
     if !extra.is_empty() {
         if kinds.contains(&"append-slice") && is_replay_of_whole_batches(extra, &p.batches) {
             replay = true;
+        } else if kinds.contains(&"run-copy") && is_concat_of_whole_batches(extra, &p.batches) {
+            // a copied run that is itself a whole CRC-valid frame of the same file, landing on a
+            // frame boundary: well-formed content, like an appended slice (see the assumptions)
+            replay = true;
+            copied = true;
         } else {
             fail(
                 "log:different-data",
@@ -271,7 +379,7 @@ pub fn judge(p: &LogPristine, got: &LogObs, kinds: &[&str], what: &str) -> (Vec<
             );
         }
     }
-    if got.err.is_none() && common < p.entries.len() && !truncated {
+    if got.err.is_none() && common < p.entries.len() && !truncated && !copied {
         fail("log:silently-short", format!("the drain ended WITHOUT error after {common} of {} entries although nothing was truncated", p.entries.len()));
     }
     // log_to_setsum must agree with the drain of the same bytes
@@ -286,8 +394,50 @@ pub fn judge(p: &LogPristine, got: &LogObs, kinds: &[&str], what: &str) -> (Vec<
         }
         _ => {}
     }
+    // log_to_builder (the replay path) must agree with the drain of the same bytes: an error
+    // whenever the drain fails, otherwise exactly the drained entries in sorted order
+    let capped = got.err.as_deref() == Some("drain-exceeds-cap");
+    let want = sorted(&got.got);
+    for (name, res) in [("a collecting builder", &got.collected), ("an SstBuilder", &got.table)] {
+        let real = name.contains("Sst");
+        match (&got.err, res) {
+            _ if capped => {}
+            (Some(e), Some(Ok(t))) => fail("log:replay-ignores-error", format!("log_to_builder into {name} succeeded ({} entries) on a log whose drain fails after {} entries with {e}", t.as_ref().map(|t| t.len()).unwrap_or(0), got.got.len())),
+            (None, Some(Ok(None))) => {
+                if !want.is_empty() {
+                    fail("log:replay-different-data", format!("log_to_builder into {name} produced nothing but the drain of the same bytes returns {} entries", want.len()));
+                }
+            }
+            (None, Some(Ok(Some(t)))) => {
+                if *t != want {
+                    let i = t.iter().zip(want.iter()).take_while(|(a, b)| a == b).count();
+                    fail(
+                        "log:replay-different-data",
+                        format!("log_to_builder into {name} produced {} entries, the drain of the same bytes returns {}; in sorted order entry #{i} is {} but should be {}", t.len(), want.len(), vsst::tables::show_entry(t.get(i)), vsst::tables::show_entry(want.get(i))),
+                    );
+                } else if real && got.table_walk_err.is_some() {
+                    fail("log:replayed-table-unreadable", format!("the table sealed by log_to_builder cannot be walked: {:?}", got.table_walk_err));
+                }
+            }
+            (None, Some(Err(e))) => {
+                if real && sst_builder_refuses(&want) {
+                    labels.push("replay:SstBuilder-refused(repeated-key@timestamp)".into());
+                } else {
+                    fail("log:replay-error-on-clean-drain", format!("log_to_builder into {name} failed ({e}) on a log whose drain ends cleanly after {} entries", got.got.len()));
+                }
+            }
+            _ => {}
+        }
+    }
+    if let (Some(Ok(Some(t))), None) = (&got.table, &got.err) {
+        labels.push(if t.len() == p.entries.len() { "replay:table-holds-all-pristine-entries".into() } else { "replay:table-holds-a-genuine-prefix-or-replay".to_string() });
+    }
+    if got.err.is_some() && matches!(got.collected, Some(Err(_))) {
+        labels.push("replay:error-like-the-drain".into());
+    }
     labels.push(
         match (got.err.is_some(), common, replay) {
+            (_, _, true) if copied => "outcome:replayed-whole-batches(copied-run-is-a-wellformed-frame)",
             (_, _, true) => "outcome:replayed-whole-batches(appended-slice-is-wellformed)",
             (true, 0, _) => "outcome:detected-before-any-data",
             (true, c, _) if c < p.entries.len() => "outcome:detected-after-genuine-prefix",
@@ -298,4 +448,43 @@ pub fn judge(p: &LogPristine, got: &LogObs, kinds: &[&str], what: &str) -> (Vec<
         .to_string(),
     );
     (labels, failure)
+}
+
+/// `truncate_final_partial_frame` walks the frames (CRC-checked) and names the end of the last
+/// WHOLE / SECOND frame when the file ends after a FIRST frame.  What is sound to demand of
+/// `Some(off)` for ANY damage: with d = the first byte at which the damaged file differs from the
+/// pristine one (the cut point of a truncation) and b0 = the last pristine batch boundary <= d,
+/// every frame that ends at or before d is a pristine frame, so (1) off >= b0 (no intact batch
+/// before the damage is cut away), (2) off <= d implies off == b0 (an offset inside the undamaged
+/// prefix is a pristine batch boundary - for a pure truncation this is always the case: the
+/// offset is THE last batch boundary at or before the cut), (3) off <= file length.  Beyond d
+/// nothing is demanded: headers carry no checksum, so a damaged discriminant can make the walker
+/// accept or skip frames; `None` / `Err` are always acceptable (the function is a probe for one
+/// corruption shape, not a verifier).  On an unchanged file the answer is the pristine one (None).
+fn judge_tfpf(p: &LogPristine, got: &LogObs, damaged: &[u8], labels: &mut Vec<String>, fail: &mut impl FnMut(&str, String)) {
+    let Some(res) = &got.tfpf else { return };
+    if damaged == p.bytes.as_slice() {
+        if *res != Ok(None) {
+            fail("log:tfpf-differs-on-unchanged-file", format!("truncate_final_partial_frame says {res:?} on a file equal to the pristine one (pristine: Ok(None))"));
+        }
+        return;
+    }
+    let d = damage::first_difference(&p.bytes, damaged);
+    let b0 = p.layout.batch_ends.iter().copied().filter(|b| *b <= d).max().unwrap_or(0);
+    let pure_cut = damaged.len() < p.bytes.len() && d == damaged.len();
+    match res {
+        Err(_) => labels.push("tfpf:error".into()),
+        Ok(None) => labels.push("tfpf:none".into()),
+        Ok(Some(off)) => {
+            let off = *off as usize;
+            if off > damaged.len() {
+                fail("log:tfpf-offset-beyond-file", format!("truncate_final_partial_frame names offset {off} in a file of {} bytes", damaged.len()));
+            } else if off < b0 {
+                fail("log:tfpf-cuts-intact-batch", format!("truncate_final_partial_frame names offset {off}, but the batch ending at {b0} lies entirely before the first damaged byte ({d}) and would be cut away"));
+            } else if off <= d && off != b0 {
+                fail("log:tfpf-not-a-batch-boundary", format!("truncate_final_partial_frame names offset {off}, inside the undamaged prefix (first damaged byte {d}) but not a batch boundary of the pristine file (the last one is {b0})"));
+            }
+            labels.push(if pure_cut { "tfpf:some(pure-truncation:last-batch-boundary-before-the-cut)".into() } else if off <= d { "tfpf:some(last-intact-batch-boundary)".into() } else { "tfpf:some(beyond-first-damaged-byte:nothing-demanded)".to_string() });
+        }
+    }
 }
